@@ -9,7 +9,7 @@ func init() {
 	assumeSite("C10-FIELDS", "VM.acl", "SetThrowControl is host configuration: it has no caller in the module besides embedding hosts (LSP uses its own VM type); it is installed before any script or request runs")
 	register(&PropDef{
 		ID:       "C10",
-		Patterns: []string{"./runtime"},
+		Patterns: []string{"./runtime", "./parser"},
 		Explanation: "Static guarded-by decision for runtime.VM: every map-typed field of the VM struct is a registry guarded by the struct's RWMutex. " +
 			"A structured abstract interpreter tracks the lock level (none/read/write) along every path of every function of package runtime; " +
 			"reads need at least the read lock, writes the write lock, unexported helpers that touch a table without locking are discharged only through all of their call sites, " +
@@ -69,6 +69,9 @@ func c10Lock(r *Run) {
 	}
 	la.run("C10-LOCK", "C10-ATOMIC", ctor)
 
+	// the class-path manager guards its namespace graph with its own mutex
+	c10OwnedGraph(r)
+
 	// other mutable fields
 	lb := newLockAnalysis(r, pkg, vm)
 	written := map[*types.Var]bool{}
@@ -123,4 +126,67 @@ func c10Lock(r *Run) {
 	}
 	r.stat("vm_other_mutable_fields", nf)
 	lb.runPerField("C10-FIELDS", ctor)
+}
+
+// c10OwnedGraph: a struct with a mutex that owns a pointer graph of another struct type of the
+// same package guards that type's map and slice fields (parser.DefaultClassPathManager → NamespaceNode).
+func c10OwnedGraph(r *Run) {
+	pkg := r.pkg("parser")
+	if pkg == nil {
+		return
+	}
+	mgr := r.lookupType(pkg, "DefaultClassPathManager")
+	if mgr == nil {
+		return
+	}
+	la := newLockAnalysis(r, pkg, mgr)
+	if len(la.mutexes) == 0 {
+		r.curRule = "C10-LOCK"
+		r.bad("parser.DefaultClassPathManager#mutex", mgr.Obj().Pos(), "the class-path manager has no mutex: concurrent autoloading mutates its namespace graph unguarded")
+		return
+	}
+	st := mgr.Underlying().(*types.Struct)
+	n := 0
+	for i := 0; i < st.NumFields(); i++ {
+		f := st.Field(i)
+		if la.mutexes[f] {
+			continue
+		}
+		switch f.Type().Underlying().(type) {
+		case *types.Map, *types.Slice:
+			la.guarded[f] = true
+			n++
+		}
+		if owned := namedOf(f.Type()); owned != nil && owned.Obj().Pkg() == pkg.Types {
+			if os, ok := owned.Underlying().(*types.Struct); ok {
+				for j := 0; j < os.NumFields(); j++ {
+					of := os.Field(j)
+					switch of.Type().Underlying().(type) {
+					case *types.Map, *types.Slice:
+						la.guarded[of] = true
+						n++
+					}
+				}
+			}
+		}
+	}
+	r.stat("classpath_guarded_fields", n)
+	if n == 0 {
+		r.fail("DefaultClassPathManager owns no map/slice state any more; the guard table is empty")
+		return
+	}
+	ctor := map[string]bool{}
+	for _, fd := range funcDecls(pkg) {
+		ast.Inspect(fd.Body, func(nd ast.Node) bool {
+			if cl, ok := nd.(*ast.CompositeLit); ok {
+				if nt := namedOf(pkg.TypesInfo.TypeOf(cl)); nt != nil && nt.Obj() == mgr.Obj() {
+					ctor[fd.Name.Name] = true
+				}
+			}
+			return true
+		})
+	}
+	// only the manager's own methods and the functions they call are judged
+	la.onlyRecv = "DefaultClassPathManager"
+	la.run("C10-LOCK", "C10-ATOMIC", ctor)
 }
